@@ -128,7 +128,7 @@ fn fixcrate(s: String) -> String {
 }
 
 fn tystr<'tcx>(ty: Ty<'tcx>) -> String {
-    fixcrate(ty::print::with_crate_prefix!(ty::print::with_no_trimmed_paths!(format!("{ty}"))))
+    fixcrate(ty::print::with_no_visible_paths!(ty::print::with_crate_prefix!(ty::print::with_no_trimmed_paths!(format!("{ty}")))))
 }
 
 fn full<'tcx>(ty: Ty<'tcx>) -> String {
@@ -137,7 +137,7 @@ fn full<'tcx>(ty: Ty<'tcx>) -> String {
 
 impl<'a, 'tcx> Extractor<'a, 'tcx> {
     fn path(&self, did: DefId) -> String {
-        fixcrate(ty::print::with_crate_prefix!(ty::print::with_no_trimmed_paths!(self.tcx.def_path_str(did))))
+        fixcrate(ty::print::with_no_visible_paths!(ty::print::with_crate_prefix!(ty::print::with_no_trimmed_paths!(self.tcx.def_path_str(did)))))
     }
 
     fn span(&self, sp: Span) -> String {
@@ -482,7 +482,7 @@ impl<'a, 'tcx> Extractor<'a, 'tcx> {
                 None => "null".into(),
             },
             match tr {
-                Some(t) => esc(&fixcrate(ty::print::with_crate_prefix!(ty::print::with_no_trimmed_paths!(format!("{}", t.print_only_trait_path()))))),
+                Some(t) => esc(&fixcrate(ty::print::with_no_visible_paths!(ty::print::with_crate_prefix!(ty::print::with_no_trimmed_paths!(format!("{}", t.print_only_trait_path())))))),
                 None => "null".into(),
             },
             esc(&full(self_ty)),
@@ -647,7 +647,7 @@ impl<'a, 'tcx> Extractor<'a, 'tcx> {
             }
             if !done {
                 // enum unit-variant constants / string literals: keep the pretty form (bounded)
-                let mut txt = fixcrate(ty::print::with_crate_prefix!(ty::print::with_no_trimmed_paths!(format!("{c}"))));
+                let mut txt = fixcrate(ty::print::with_no_visible_paths!(ty::print::with_crate_prefix!(ty::print::with_no_trimmed_paths!(format!("{c}")))));
                 if txt.len() > 200 {
                     txt.truncate(200);
                 }
